@@ -783,16 +783,16 @@ func main() {
 			{Root: hx.Hex(h.root), Frames: append(framesOf(r, es), frameSpec{Ok: true}), FailAt: -1, Walk: w, Seen: seen}}})
 	}
 	rr, rl, rp, rh := r.Fork(4), r.Fork(5), r.Fork(6), r.Fork(7)
-	for i := 0; i < run.N(100, 2500); i++ {
+	for i := 0; i < run.N(100, 1600); i++ {
 		runCase(run, orc, genRetr(rr, all))
 	}
-	for i := 0; i < run.N(30, 600); i++ {
+	for i := 0; i < run.N(30, 400); i++ {
 		runCase(run, orc, genRelay(rl, all))
 	}
-	for i := 0; i < run.N(100, 2500); i++ {
+	for i := 0; i < run.N(100, 1600); i++ {
 		runCase(run, orc, genPyr(rp, pool, all))
 	}
-	for i := 0; i < run.N(30, 600); i++ {
+	for i := 0; i < run.N(30, 400); i++ {
 		runCase(run, orc, genHist(rh, pool, all))
 	}
 	run.Finish()
